@@ -901,10 +901,15 @@ func (self *_Compiler) compileArray(p *_Program, sp int, vt reflect.Type) {
 		p.chr(_OP_match_char, ',')
 	}
 
-	/* drop rest of the array */
+	/* drop rest of the array: the ',' consumed above must be followed by a value, not by ']' */
+	p.add(_OP_lspace)
+	e := p.pc()
+	p.chr(_OP_check_char_0, ']')
 	p.add(_OP_array_skip)
 	w := p.pc()
 	p.add(_OP_goto)
+	p.pin(e)
+	p.chr(_OP_match_char, ',')
 	p.rel(v)
 
 	/* check for pointer data */
